@@ -71,9 +71,9 @@ func httpScenarioFile() string {
 		"requests": []any{
 			map[string]any{
 				"name": "r1", "method": "POST", "tag": "t1",
-				"uri":     `/a/{{.request.r1.preprocessor.u.login}}?x={{randString 4 "ab"}}`,
-				"headers": map[string]string{"X-User": "u-{{.request.r1.preprocessor.u.login}}", "X-G": "{{.source.global.g}}"},
-				"body":    `{"l":"{{.request.r1.preprocessor.r.login}}","n":{{randInt 1 9}}}`,
+				"uri":          `/a/{{.request.r1.preprocessor.u.login}}?x={{randString 4 "ab"}}`,
+				"headers":      map[string]string{"X-User": "u-{{.request.r1.preprocessor.u.login}}", "X-G": "{{.source.global.g}}"},
+				"body":         `{"l":"{{.request.r1.preprocessor.r.login}}","n":{{randInt 1 9}}}`,
 				"preprocessor": map[string]any{"mapping": map[string]string{"u": "source.users[next]", "r": "source.users[rand]"}},
 				"templater":    map[string]any{"type": "text"},
 				"postprocessors": []any{
